@@ -129,6 +129,13 @@ pub fn check_pair(ma: &M, mb: &M, actors: &[u8], max_ctr: u64) -> Result<(), Fai
         if (inc.actor, inc.counter) != (x, g(ma, x) + 1) {
             return Err(Fail::new(ctx(&format!("inc({x}) = {inc:?}"))));
         }
+        // Dot::inc / Dot::apply_inc: the successor of the actor's dot, by value and in place
+        let succ = d.inc();
+        let mut inplace = d.clone();
+        inplace.apply_inc();
+        if succ != inc || inplace != inc {
+            return Err(Fail::new(ctx(&format!("dot({x}).inc() = {succ:?}, apply_inc -> {inplace:?}, VClock::inc({x}) = {inc:?}"))));
+        }
         for n in 0..=max_ctr + 2 {
             let dot = Dot::new(x, n);
             let v = a.validate_op(&dot);
